@@ -121,3 +121,26 @@ Section History.
 
   Definition run_steps (p : profile) (sts : list pstep) : profile := fold_left run_step sts p.
 End History.
+
+(* ---------------------------------------------------------------- addLegacyFrameInfo
+   (profile/legacy_profile.go): EVERY profile parsed from a legacy format gets built-in expressions,
+   chosen by its sample type names only (never by the period type): heap tables, contention table, else
+   the cpu table.  The expression strings themselves are data of the code, shipped in the case. *)
+Definition heapz_sample_types : list (list string) :=
+  [ ["allocations"; "size"]; ["objects"; "space"]; ["inuse_objects"; "inuse_space"];
+    ["alloc_objects"; "alloc_space"]; ["alloc_objects"; "alloc_space"; "inuse_objects"; "inuse_space"] ]%string.
+Definition contentionz_sample_types : list (list string) := [ ["contentions"; "delay"] ]%string.
+
+Fixpoint strs_eqb (a b : list string) : bool :=
+  match a, b with
+  | [], [] => true
+  | x :: a', y :: b' => String.eqb x y && strs_eqb a' b'
+  | _, _ => false
+  end.
+Definition is_profile_type (st : list string) (types : list (list string)) : bool := existsb (strs_eqb st) types.
+
+(* (drop_frames, keep_frames) for sample type names st, given the code's four expression strings *)
+Definition legacy_frame_info (heap_drop heap_keep lock_drop cpu_drop : string) (st : list string) : string * string :=
+  if is_profile_type st heapz_sample_types then (heap_drop, heap_keep)
+  else if is_profile_type st contentionz_sample_types then (lock_drop, EmptyString)
+  else (cpu_drop, EmptyString).
